@@ -267,6 +267,13 @@ def handle (f : Array String) : String :=
     let k := pktSigOf f 13
     let d := parseInt f[26]!
     mtStr (tcpMatchPkt s k d)
+  | "match2" =>
+    -- the signature object was used once as (fields 1..12) and then edited in place to (fields 27..38): the verdict is
+    -- that of the signature as it is now
+    let s := sigOf f 27
+    let k := pktSigOf f 13
+    let d := parseInt f[26]!
+    mtStr (tcpMatchPkt s k d)
   | "wmult" =>
     let w : WIn := { win := parseNat f[1]!, mss := parseNat f[2]!, ts := parseNat f[3]!,
                      ipVer := parseNat f[4]!, hdrLen := parseNat f[5]!, synMss := parseNat f[6]! }
